@@ -7,3 +7,4 @@ import r_c09  # noqa: F401
 import r_c11  # noqa: F401
 import r_c18  # noqa: F401
 import r_c03  # noqa: F401
+import r_c12  # noqa: F401
